@@ -294,7 +294,14 @@ func cmdReplay(args []string) int {
 	if rf.Tape != nil {
 		tf = writeTape(bo.Dir, 1, rf.Tape)
 	}
-	o := r.runOne(context.Background(), leg, rf.Seed, tf, "VERIF_TRACE=1")
+	logOn := "0"
+	if len(args) > 1 && args[1] == "-log" {
+		logOn = "1"
+	}
+	o := r.runOne(context.Background(), leg, rf.Seed, tf, "VERIF_TRACE=1", "VERIF_LOG="+logOn)
+	if logOn == "1" {
+		fmt.Println(o.stderr)
+	}
 	if o.trouble != "" {
 		fmt.Fprintln(os.Stderr, "vcheck: replay trouble:", o.trouble)
 		return 2
